@@ -237,6 +237,10 @@ func (p *PostingsList) Count() uint64 {
 func (p *PostingsList) read(postingsOffset uint64, d *Dictionary) error {
 	p.postingsOffset = postingsOffset
 
+	// p may be a reused list that last held a 1-hit term
+	p.docNum1Hit = 0
+	p.normBits1Hit = 0
+
 	// handle "1-hit" encoding special case
 	if p.postingsOffset&fSTValEncodingMask == fSTValEncoding1Hit {
 		return p.init1Hit(postingsOffset)
